@@ -222,10 +222,18 @@ def build_v2(spec):
         co += "flow input rails $input_text\n" + "".join("  in rail %s $input_text\n" % letters(i) for i in range(k)) + "\n"
     if m:
         co += "flow output rails $output_text\n" + "".join("  out rail %s $output_text\n" % letters(i) for i in range(m)) + "\n"
+    pol_in, pol_out = spec.get("pol_in") or ["ok"] * k, spec.get("pol_out") or ["ok"] * m
     for i in range(k):
-        co += 'flow in rail %s $t\n  $ok = await Vin%dAction(text=$t)\n  if not $ok\n    bot say "REFUSED-IN-%d"\n    abort\n\n' % (letters(i), i, i)
+        if pol_in[i] == "blocked":
+            # the action answers "is it bad?" (the polarity of e.g. the library's jailbreak / hallucination / sensitive-data rails)
+            co += 'flow in rail %s $t\n  $bad = await Vin%dAction(text=$t)\n  if $bad\n    bot say "REFUSED-IN-%d"\n    abort\n\n' % (letters(i), i, i)
+        else:
+            co += 'flow in rail %s $t\n  $ok = await Vin%dAction(text=$t)\n  if not $ok\n    bot say "REFUSED-IN-%d"\n    abort\n\n' % (letters(i), i, i)
     for i in range(m):
-        co += 'flow out rail %s $t\n  $ok = await Vout%dAction(text=$t)\n  if not $ok\n    bot say "REFUSED-OUT-%d"\n    abort\n\n' % (letters(i), i, i)
+        if pol_out[i] == "blocked":
+            co += 'flow out rail %s $t\n  $bad = await Vout%dAction(text=$t)\n  if $bad\n    bot say "REFUSED-OUT-%d"\n    abort\n\n' % (letters(i), i, i)
+        else:
+            co += 'flow out rail %s $t\n  $ok = await Vout%dAction(text=$t)\n  if not $ok\n    bot say "REFUSED-OUT-%d"\n    abort\n\n' % (letters(i), i, i)
     return co, y
 
 
@@ -343,9 +351,10 @@ class App:
             self.log.add(side, idx=i, text=text)
             self._tick_fault(side, i)
             v = self.V.get((side, self.turn, i), "ok")
+            blocked_polarity = ((self.spec.get("pol_in") if side == "in" else self.spec.get("pol_out")) or [])[i : i + 1] == ["blocked"]
             if side == "out" and not (isinstance(text, str) and "BOT-" in text):
-                return True  # refusals / predefined texts pass the output rails (they run through _bot_say too)
-            return v != "block"
+                return not blocked_polarity  # refusals / predefined texts pass the output rails (they run through _bot_say too)
+            return (v == "block") if blocked_polarity else (v != "block")
 
         return f
 
